@@ -3,7 +3,7 @@ import os
 import re
 from extract import Undecided
 
-DIRECTIVES = ('ret', 'props', 'requires', 'ensures', 'decreases', 'attr', 'loop', 'closure', 'hint', 'as',
+DIRECTIVES = ('rules+', 'subst', 'ret', 'props', 'requires', 'ensures', 'decreases', 'attr', 'loop', 'closure', 'hint', 'as',
               'rules', 'sigsub', 'opens', 'recommends', 'external_body', 'rename', 'params')
 
 
@@ -50,6 +50,8 @@ class UnitSpec:
         self.includes = []
         self.watches = []
         self.auto = []
+        self.derived_from = None
+        self.dropped = []
 
 
 TAG_RE = re.compile(r'^\[([^\]|]*)\|\s*([^\]]+)\]\s*(.*)$', re.S)
@@ -178,6 +180,91 @@ def parse(path):
                 for nm in other.features:
                     if nm not in u.features:
                         u.features.append(nm)
+            elif word == 'derive':
+                # derive <unit> <prefix> <tag> <old source> => <new source>
+                # the contracts, hints and lemmas of <unit> applied to the same items of another source file (the async port read through
+                # rule R30): labels get the prefix, every clause is tagged <tag> only; items that <unit> itself includes stay as they are
+                m = re.match(r'(\S+)\s+(\S+)\s+(\S+)\s+(\S+)\s*=>\s*(\S+)$', rest)
+                if not m:
+                    raise Undecided('%s:%d: bad derive directive' % (path, lineno))
+                oname, prefix, tag, old_src, new_src = m.groups()
+                other = parse(os.path.join(os.path.dirname(path), oname + '.vspec'))
+                u.derived_from = oname
+                for nm in other.features:
+                    if nm not in u.features:
+                        u.features.append(nm)
+                for nm in other.prelude:
+                    if nm not in u.prelude:
+                        u.prelude.append(nm)
+                for nm in other.spec:
+                    if nm not in u.spec:
+                        u.spec.append(nm)
+                if not u.rules:
+                    u.rules = list(other.rules)
+                for k, v in other.rule_args.items():
+                    for x in v:
+                        x = x.replace(old_src, new_src)
+                        if x not in u.rule_args.setdefault(k, []):
+                            u.rule_args[k].append(x)
+                for oi in other.items:
+                    if isinstance(oi, tuple):
+                        u.items.append(oi)
+                        continue
+                    if getattr(oi, 'included_from', None) or oi.source != old_src:
+                        if not getattr(oi, 'included_from', None):
+                            oi.included_from = oname
+                            if oi.rules is None:
+                                oi.rules = list(other.rules)
+                        u.items.append(oi)
+                        continue
+                    oi.source = new_src
+                    oi.home = u.name
+                    oi.auto_tag = tag
+                    oi.props = [tag]
+                    if oi.rules is None:
+                        oi.rules = list(other.rules)
+                    for k, v in list(oi.rule_args.items()):
+                        oi.rule_args[k] = [x.replace(old_src, new_src) for x in v]
+                    # clauses taken verbatim from a property that the sync code is known to miss (ensures!) are not carried over: the derived unit
+                    # asks whether the port meets the contract the sync code meets, not whether both are right
+                    oi.clauses = [c for c in oi.clauses if not c.strict]
+                    for c in oi.clauses:
+                        if c.label:
+                            c.label = prefix + '.' + c.label
+                        c.tags = [tag]
+                    for n_, cl in oi.loops.items():
+                        for c in cl:
+                            if c.label:
+                                c.label = prefix + '.' + c.label
+                            c.tags = [tag]
+                    for n_, d in oi.closures.items():
+                        for c in d['clauses']:
+                            if c.label:
+                                c.label = prefix + '.' + c.label
+                            c.tags = [tag]
+                    oi.hints = [(prefix + '.' + h[0], [tag]) + tuple(h[2:]) for h in oi.hints]
+                    u.items.append(oi)
+            elif word == 'patch':
+                # patch <item path>: the indented directives that follow (rulearg, rules+, subst, hint, loop ...) amend a derived item
+                hits = [x for x in u.items if not isinstance(x, tuple) and x.home == u.name and x.path == rest]
+                if len(hits) != 1:
+                    raise Undecided('%s:%d: patch matches %d derived items: %s' % (path, lineno, len(hits), rest))
+                cur = hits[0]
+                i += 1
+                continue
+            elif word == 'exclude':
+                # exclude <unit>: remove the items that came in from <unit> (a derived unit then includes that unit's own derived twin instead)
+                before = len(u.items)
+                u.items = [x for x in u.items if isinstance(x, tuple) and x[4] != rest or not isinstance(x, tuple) and x.home != rest]
+                if len(u.items) == before:
+                    raise Undecided('%s:%d: exclude matches nothing: %s' % (path, lineno, rest))
+            elif word == 'drop':
+                # drop <item path>: remove a derived item that has no counterpart in the new source (stated in the unit, counted in the evidence)
+                before = len(u.items)
+                u.items = [x for x in u.items if isinstance(x, tuple) or not (x.home == u.name and x.path == rest)]
+                if len(u.items) == before:
+                    raise Undecided('%s:%d: drop matches no derived item: %s' % (path, lineno, rest))
+                u.dropped.append(rest)
             elif word == 'raw':
                 if not rest.endswith('<<<'):
                     raise Undecided('%s:%d: raw needs <<<' % (path, lineno))
@@ -201,6 +288,16 @@ def parse(path):
                 cur = ItemSpec(cur_source, pe.strip(), lineno)
                 cur.home = u.name
                 cur.auto = list(u.auto)
+                # an item written out after `derive` replaces the derived one (same source and path), in place
+                for k_, x_ in enumerate(u.items):
+                    if not isinstance(x_, tuple) and x_.home == u.name and x_.source == cur_source and x_.path == cur.path:
+                        u.items[k_] = cur
+                        break
+                else:
+                    u.items.append(cur)
+                cur.as_header = as_header.strip() if as_header else None
+                i += 1
+                continue
                 cur.as_header = as_header.strip() if as_header else None
                 u.items.append(cur)
             else:
@@ -224,6 +321,36 @@ def parse(path):
         elif word == 'rulearg':
             k, _, v = rest.partition(' ')
             cur.rule_args.setdefault(k, []).append(v.strip())
+            i += 1
+        elif word == 'rules+':
+            cur.rules = list(cur.rules if cur.rules is not None else u.rules) + rest.split()
+            i += 1
+        elif word == 'subst':
+            # subst "old" => "new": textual replacement in the hints and clause expressions of this item (derived items: where the port's
+            # types differ from the sync ones, e.g. &String instead of &Arc<str>)
+            m = re.match(r'"((?:[^"\\]|\\.)*)"\s*=>\s*"((?:[^"\\]|\\.)*)"$', rest)
+            if not m:
+                raise Undecided('%s:%d: bad subst directive' % (path, lineno))
+            a_, b_ = m.group(1), m.group(2)
+            nhit = 0
+            newh = []
+            for h in cur.hints:
+                nhit += h[4].count(a_)
+                newh.append(h[:4] + (h[4].replace(a_, b_),) + h[5:])
+            cur.hints = newh
+            for c in cur.clauses:
+                nhit += c.expr.count(a_)
+                c.expr = c.expr.replace(a_, b_)
+            for n_, cl in cur.loops.items():
+                for c in cl:
+                    nhit += c.expr.count(a_)
+                    c.expr = c.expr.replace(a_, b_)
+            for n_, d in cur.closures.items():
+                for c in d['clauses']:
+                    nhit += c.expr.count(a_)
+                    c.expr = c.expr.replace(a_, b_)
+            if nhit == 0:
+                raise Undecided('%s:%d: subst matches nothing' % (path, lineno))
             i += 1
         elif word == 'external_body':
             cur.external_body = True
